@@ -11,7 +11,7 @@ PROPERTY = 'C10'
 RULE = ('complete vocabulary space: every non-obsolete entry of unimod.obo, psi-mod.obo, xlmod.obo and every '
         'monosaccharide (read by an independent OBO reader) x every documented spelling x 4 observations; generic forms: '
         'all formulas of <=3 terms (any order, a symbol may be written more than once) over {C,H,N,O,13C,2H,Na} x counts {-2,1,2,12,1.5}, all glycans of <=3 terms over '
-        '{Hex,HexNAc,Fuc,Neu5Ac} x {1,2,3}, prefixed signed shifts, decorations; every accession/name shared by two '
+        '{Hex,HexNAc,Fuc,Neu5Ac,HexA,Pent,NeuAc,dHex} x {1,2,3}, prefixed signed shifts, decorations; every accession/name shared by two '
         'vocabularies asked in every order of the vocabularies against isolated reference answers; a state = one vocabulary entry or one '
         'generic form; non-trivial = has at least two spellings / a non-empty formula')
 ASSUMPTIONS = ['"same error" = every spelling raises some ValueError subclass',
@@ -106,7 +106,8 @@ def _cross_baselines(keys):
 
 FEL = ['C', 'H', 'N', 'O', '13C', '2H', 'Na']
 FCOUNT = [-2, 1, 2, 12, 1.5]
-GNAMES = {'Hex': BRICKS['Hex'], 'HexNAc': BRICKS['HexNAc'], 'Fuc': BRICKS['dHex'], 'Neu5Ac': BRICKS['NeuAc']}
+GNAMES = {'Hex': BRICKS['Hex'], 'HexNAc': BRICKS['HexNAc'], 'Fuc': BRICKS['dHex'], 'Neu5Ac': BRICKS['NeuAc'],
+          'HexA': BRICKS['HexA'], 'Pent': BRICKS['Pent'], 'NeuAc': BRICKS['NeuAc'], 'dHex': BRICKS['dHex']}   # names and synonyms
 
 
 def gen(shard, tier):
